@@ -22,19 +22,24 @@ LEVEL = "model_checking"
 
 CFG_MIX = {
     "values": (3,), "index_values": (1,),
-    "templates": ("mul2", "add", "neg", "abs", "round1", "floor", "pick", "total", "dyn", "lt", "eqx", "rpow"),
-    "iops": (("sub", ("lit", 1)),), "unreg": True, "setc": True,
+    "templates": ("mul2", "add", "neg", "abs", "round1", "floor", "pick", "total", "dyn", "lt", "eqx", "rpow", "pair1"),
+    "iops": (("sub", ("lit", 1)),), "unreg": True, "setc": True, "genfun": True,
 }
 CFG_NEST = {"values": (3,), "templates": ("mul2", "add", "abs", "round1"), "iops": (("add", ("lit", 1)),), "unreg": True,
-            "extra": [("freeze",), ("unfreeze",)]}     # a manager can be pickled while its tree is frozen
+            "extra": [("freeze",), ("unfreeze",)], "genfun": True}     # a manager can be pickled while its tree is frozen
 # builtins with ref parameters, keyword order, string arguments; load() leaves values that disagree with their definitions
 CFG_PARAM = {"values": (3,), "templates": ("mul2", "roundr", "kw2", "unit", "litneg"), "unreg": True, "leaves_n": 4, "loads": 6}
-ALPHABETS = {"mix": CFG_MIX, "nest": CFG_NEST, "param": CFG_PARAM}
+# chains through sibling members of one nested container, one level deeper (the order of the index entries decides the update order there)
+CFG_SIB = {"values": (3,), "templates": ("mul2", "inc"), "unreg": True}
+ALPHABETS = {"mix": CFG_MIX, "nest": CFG_NEST, "param": CFG_PARAM, "sib": CFG_SIB}
 
 
 def alphabet_for(world, name):
     from .c03 import _loads
     cfg = dict(ALPHABETS[name])
+    if cfg.pop("genfun", False):
+        # a setter function generated earlier (a query; whatever it leaves in the manager is pickled with it)
+        cfg["extra"] = list(cfg.get("extra", [])) + [("genfun", (world["leaves"][0],))]
     n = cfg.pop("leaves_n", None)
     if n:
         # operands come from the first two locations, targets are the next ones: operands always hold plain ints, so
@@ -86,44 +91,9 @@ class System(ManagerSystem):
         out.append(("set", self.world["leaves"][0], 9))
         return out
 
-    def state_checks(self, w, ns, hist, op):
-        issues = []
-        m = w.m
-        try:
-            blob = pickle.dumps(m)
-            m2 = pickle.loads(blob)
-        except BaseException as e:  # noqa  (RecursionError included)
-            issues.append(self.issue("violation", hist, op, f"pickle round trip raised {type(e).__name__}: {str(e)[:120]}",
-                                     {"definitions": m.dump()}))
-            return issues
-        for label, r in m.containers.items():
-            r2 = m2.containers.get(label)
-            if type(r2) is not type(r):
-                issues.append(self.issue("violation", hist, op, f"container ref {label!r} is a {type(r).__name__} in the original and a "
-                                                                f"{type(r2).__name__} in the copy"))
-                return issues
-        c = World.from_manager(self.world, m2)
-        if c.data is w.data:
-            issues.append(self.issue("violation", hist, op, "the copy shares its container with the original"))
-            return issues
-        if m2.dump() != m.dump():
-            issues.append(self.issue("violation", hist, op, "the copy's definitions differ", {"orig": m.dump(), "copy": m2.dump()}))
-        # data, the ordered list of definitions, and the four indices as multisets (keys and counts).  The insertion order of the
-        # indices is deliberately not compared: a manager that rebuilds its indices when unpickled is still a faithful copy.
-        if not T.same(c.contents(), w.contents()) or state_obs(c) != state_obs(w):
-            issues.append(self.issue("violation", hist, op, "the copy's concrete state (data / tasks / indices) differs from the original",
-                                     {"orig": mgr.index_dump(m), "copy": mgr.index_dump(m2),
-                                      "contents": repr(w.contents()), "copy_contents": repr(c.contents())}))
-        for r in list(m2.tasks)[:3]:
-            if getattr(r, "_manager", m2) is not m2:
-                issues.append(self.issue("violation", hist, op, "a ref of the copy still points at the original manager"))
-                break
-        probs = check_indices(m2, "copy.")
-        if probs:
-            issues.append(self.issue("violation", hist, op, "copy: " + probs[0]))
-        # mirrored follow-ups, alternating which side goes first
+    def mirror(self, w, c, ns, follow, hist, op, issues):
         ns_cur = ns
-        for i, f in enumerate(self.followups(ns)):
+        for i, f in enumerate(follow):
             try:
                 ns_next, ex_f = RM.step(ns_cur, f)
                 underdet = bool(ex_f.assigned is not None and ex_f.trigger and mgr.order_underdetermined(ns_next, ex_f.trigger))
@@ -164,12 +134,97 @@ class System(ManagerSystem):
                 issues.append(self.issue("violation", hist, op, f"assigning {mgr.op_str(f)} on one manager changed the other's data"))
                 break
             if not T.same(c.contents(), w.contents()):
-                if underdet:
-                    break    # the recorded sibling-cycle finding leaves the update order open here: no agreement demanded
+                # (also where the recorded sibling-cycle finding leaves the update order open for the MODEL: whatever order the
+                # original takes, a behaviourally identical copy takes the same one)
                 issues.append(self.issue("violation", hist, op, f"original and copy disagree after follow-up {mgr.op_str(f)}",
                                          {"diff(copy vs original)": mgr.diff_contents(c.contents(), w.contents())[:6]}))
                 break
             ns_cur = ns_next
+
+    def state_checks(self, w, ns, hist, op):
+        issues = []
+        m = w.m
+        try:
+            blob = pickle.dumps(m)
+            m2 = pickle.loads(blob)
+        except BaseException as e:  # noqa  (RecursionError included)
+            issues.append(self.issue("violation", hist, op, f"pickle round trip raised {type(e).__name__}: {str(e)[:120]}",
+                                     {"definitions": m.dump()}))
+            return issues
+        for label, r in m.containers.items():
+            r2 = m2.containers.get(label)
+            if type(r2) is not type(r):
+                issues.append(self.issue("violation", hist, op, f"container ref {label!r} is a {type(r).__name__} in the original and a "
+                                                                f"{type(r2).__name__} in the copy"))
+                return issues
+        # the same pickle loaded a SECOND time: a third manager, independent of both
+        try:
+            c3 = World.from_manager(self.world, pickle.loads(blob))
+        except BaseException as e:  # noqa
+            issues.append(self.issue("violation", hist, op, f"loading the same pickle a second time raised {type(e).__name__}: {str(e)[:120]}"))
+            return issues
+        c = World.from_manager(self.world, m2)
+        if c.data is w.data:
+            issues.append(self.issue("violation", hist, op, "the copy shares its container with the original"))
+            return issues
+        if m2.dump() != m.dump():
+            issues.append(self.issue("violation", hist, op, "the copy's definitions differ", {"orig": m.dump(), "copy": m2.dump()}))
+        # data, the ordered list of definitions, and the four indices as multisets (keys and counts).  The insertion order of the
+        # indices is deliberately not compared: a manager that rebuilds its indices when unpickled is still a faithful copy.
+        if not T.same(c.contents(), w.contents()) or state_obs(c) != state_obs(w):
+            issues.append(self.issue("violation", hist, op, "the copy's concrete state (data / tasks / indices) differs from the original",
+                                     {"orig": mgr.index_dump(m), "copy": mgr.index_dump(m2),
+                                      "contents": repr(w.contents()), "copy_contents": repr(c.contents())}))
+        for r in list(m2.tasks)[:3]:
+            if getattr(r, "_manager", m2) is not m2:
+                issues.append(self.issue("violation", hist, op, "a ref of the copy still points at the original manager"))
+                break
+        probs = check_indices(m2, "copy.")
+        if probs:
+            issues.append(self.issue("violation", hist, op, "copy: " + probs[0]))
+        # the second copy gets an assignment of its own first (a value the others never see): it must react as the model says, and
+        # neither the first copy nor the original may notice
+        if c3.data is c.data or c3.data is w.data:
+            issues.append(self.issue("violation", hist, op, "the second copy shares its container with the first copy / the original"))
+            return issues
+        if not any(t[0] != "E" for t in ns.tasks) and True:
+            fk_ = mgr.task_regions(ns)
+            for L in self.world["leaves"]:
+                if ("E", L) in ns.tasks or any(T.overlap(L, x) for x in fk_):
+                    continue
+                f3 = ("set", L, 11)
+                ns3, ex3 = RM.step(ns, f3)
+                if ex3.raises:
+                    continue
+                snap_c, snap_w = c.contents(), w.contents()
+                exc = None
+                c3.trace.reset()
+                try:
+                    c3.apply(f3)
+                except Exception as e:  # noqa
+                    exc = e
+                v = mgr.judge(c3, ns, f3, ns3, ex3, exc)
+                if v.kind == "violation":
+                    issues.append(self.issue("violation", hist, op, f"a second copy loaded from the same pickle reacts wrongly to {mgr.op_str(f3)}: {v.what}",
+                                             {"diff(second copy vs model)": mgr.diff_contents(c3.contents(), ns3.vals["s"])[:6]}))
+                    return issues
+                if not T.same(c.contents(), snap_c) or not T.same(w.contents(), snap_w):
+                    issues.append(self.issue("violation", hist, op, f"assigning {mgr.op_str(f3)} on the second copy changed the first copy / the original"))
+                    return issues
+                break
+        # mirrored follow-ups, alternating which side goes first: once starting with an in-place update of a definition, once
+        # (on a fresh replica of the state and a fresh copy of it) with plain assignments only, so that the restored indices
+        # are used as they came out of the pickle
+        fl = self.followups(ns)
+        self.mirror(w, c, ns, fl, hist, op, issues)
+        if not issues and fl and fl[0][0] == "iop":
+            w_b = self.replay(tuple(hist) + (self.universe.index(op),))
+            try:
+                c_b = World.from_manager(self.world, pickle.loads(pickle.dumps(w_b.m)))
+            except BaseException as e:  # noqa
+                issues.append(self.issue("violation", hist, op, f"pickle round trip raised {type(e).__name__}: {str(e)[:120]}"))
+                return issues
+            self.mirror(w_b, c_b, ns, fl[1:], hist, op, issues)
         try:
             with contextlib.redirect_stdout(io.StringIO()):
                 m2.verify()
@@ -181,8 +236,8 @@ class System(ManagerSystem):
 def plan(tier, seed):
     seeds = common.seeds_for(tier, seed, quick=(0,), thorough=(0, 1, 2))
     jobs = []
-    runs = [("W-mix", "mix", 2), ("W-nest", "nest", 2), ("W-mix-attr", "nest", 2), ("W-flat", "param", 2)] if tier == "quick" else \
-        [("W-mix", "mix", 2), ("W-nest", "nest", 2), ("W-mix-attr", "mix", 2), ("W-mix-attr", "nest", 2), ("W-flat", "param", 3),
+    runs = [("W-mix", "mix", 2), ("W-nest", "nest", 2), ("W-mix-attr", "nest", 2), ("W-flat", "param", 2), ("W-nest-4", "sib", 4)] if tier == "quick" else \
+        [("W-nest-4", "sib", 5), ("W-mix", "mix", 2), ("W-nest", "nest", 2), ("W-mix-attr", "mix", 2), ("W-mix-attr", "nest", 2), ("W-flat", "param", 3),
          ("W-nest-4", "param", 3), ("W-nest-4", "nest", 3)]
     for hs in seeds:
         for wname, alpha, depth in runs:
